@@ -1,4 +1,5 @@
 import PsecModel.Lemmas.Framing
+import PsecModel.Lemmas.RefLawful
 /-!
 # C01 — TR-31 wrap then unwrap returns the original key and header
 
@@ -94,5 +95,12 @@ theorem wrap_header_string (c : Ciphers) (kbpk : Bytes) (t : PyStr) (key : Bytes
 /-- wrapping does not modify the caller's header: the object after `wrap` is the object before (on every path) -/
 theorem wrap_readonly (c : Ciphers) (kb : KB) (key : Bytes) (mask : Option Int) (entropy : Bytes) :
     (step c kb (.wrap key mask entropy)).2 = kb := rfl
+
+/-- the round trip for the model exactly as the correspondence check runs it (reference TDES / AES): no hypothesis on the ciphers -/
+theorem wrap_unwrap_ref (kbpk : Bytes) (h : Header) (hw : h.WF) (hnp : NoPadIds h.blocks)
+    (key : Bytes) (mask : Option Int) (entropy : Bytes) (s : PyStr)
+    (hwrap : wrapFn refCiphers kbpk (.obj h) key mask entropy = .ok s) :
+    unwrapFn refCiphers kbpk s = .ok (h, key) :=
+  wrap_unwrap refCiphers refCiphers_lawful kbpk h hw hnp key mask entropy s hwrap
 
 end Psec.Props.C01
